@@ -177,7 +177,7 @@ pub fn floors() -> Vec<&'static str> {
     let mut f = vec![
         "json:Knot", "cbor:Knot", "json:Poly0", "cbor:Poly8", "json:Log<Poly3>", "cbor:IntOfLog<Poly5>", "json:IntOfLogPoly4",
         "cbor:IntOfLogPoly4", "json:Segment", "cbor:Segment", "json:Piecewise", "cbor:Piecewise",
-        "piecewise_segments:0", "piecewise_segments:1", "piecewise_segments:50-200",
+        "piecewise_segments:0", "piecewise_segments:1", "piecewise_segments:50-200", "piecewise_segments:4096+",
     ];
     if cfg!(feature = "borsh") {
         f.extend(["borsh:Knot", "borsh:Poly4", "borsh:Log<Poly8>", "borsh:IntOfLog<Poly0>", "borsh:IntOfLogPoly4", "borsh:Segment", "borsh:Piecewise"]);
@@ -185,9 +185,38 @@ pub fn floors() -> Vec<&'static str> {
     f
 }
 
+/// "any number of segments": a few very long functions through every format (length prefixes, buffers)
+fn large(m: &mut Mon, r: &mut Rng) {
+    for n in [4096usize, 4097, 5000, 65_537, 100_003] {
+        macro_rules! big {
+            ($t:ty) => {{
+                type T = $t;
+                let name = <T as Nums>::NAME;
+                let pn: Vec<f64> = (0..n * (<T as Nums>::LEN + 1)).map(|_| value(r, true)).collect();
+                let pv: Piecewise<T> = Piecewise { segments: pn.chunks(<T as Nums>::LEN + 1).map(|c| Segment::<T>::from_nums(c)).collect() };
+                m.case(hash_bits(183, [n as u64, name.len() as u64, pn[0].to_bits(), pn[pn.len() - 1].to_bits()]));
+                m.count("piecewise_segments:4096+");
+                compare(m, "cbor", "Piecewise", &pn, rt_cbor(&pv, |w: &Piecewise<T>| pw_nums(w)));
+                compare(m, "json", "Piecewise", &pn, rt_json(&pv, |w: &Piecewise<T>| pw_nums(w)));
+                borsh_lane!(m, &pv, |w: &Piecewise<T>| pw_nums(w), "Piecewise", &pn);
+            }};
+        }
+        big!(Poly0);
+        if n < 70_000 {
+            big!(Poly3);
+            big!(IntOfLogPoly4);
+            big!(Log<Poly1>);
+        }
+    }
+}
+
 pub fn run(a: &Args, m: &mut Mon) {
     m.floors(&floors());
     canaries(m);
+    if a.shard == 0 {
+        let mut r = Rng::lane(a.seed, "C18-large", 0, if cfg!(feature = "borsh") { 1 } else { 0 });
+        large(m, &mut r);
+    }
     m.extra.insert("borsh_feature_enabled".into(), json!(cfg!(feature = "borsh")));
     let mut r = Rng::lane(a.seed, "C18", a.shard, if cfg!(feature = "borsh") { 1 } else { 0 });
     let n = a.n(1_600, 80_000);
